@@ -141,6 +141,8 @@ type record = {
 let fresh () = { op = []; perm = []; qperm = []; fuse = None; result = ""; states = []; logd = None; dumps = []; line = 0 }
 
 let verbose = ref false
+let aspects = ref "RSHAKD"   (* Result State Hashes Allocs/frees Kept-ledger(drops) Dumps *)
+let asp c = String.contains !aspects c
 let total_hist = ref 0 and total_ops = ref 0 and total_diff = ref 0 and total_oracle_retries = ref 0
 let opkinds : (string, int) Hashtbl.t = Hashtbl.create 64
 
@@ -176,20 +178,27 @@ let attempt cfg w (r : record) op (on, tomb) : (world * out) option * string opt
     let diff = ref None in
     let set s = if !diff = None then diff := Some s in
     let mo = str_out o in
-    if mo <> r.result then
+    if asp 'R' && mo <> r.result then
       set (Printf.sprintf "result: model=[%s%s] impl=[%s]" mo
              (match o with OutP p -> " (" ^ panic_detail p ^ ")" | _ -> "") r.result);
     List.iter (fun (slot, obs) ->
         let ms = match slot_of w' slot with None -> "gone" | Some m -> str_summary m in
-        if ms <> obs then set (Printf.sprintf "state of slot %s: model=[%s] impl=[%s]" (string_of_n slot) ms obs)) r.states;
+        if asp 'S' && ms <> obs then set (Printf.sprintf "state of slot %s: model=[%s] impl=[%s]" (string_of_n slot) ms obs)) r.states;
     (match r.logd with
      | None -> ()
      | Some obs ->
-       let ml = canon_log (str_logdelta w.w_log w'.w_log) in
-       if ml <> canon_log obs then set (Printf.sprintf "counters (hashes allocs frees dropped-keys dropped-values): model=[%s] impl=[%s]" ml (canon_log obs)));
+       let pick (l : string) =
+         (* keep only the aspects under comparison *)
+         match split l with
+         | h :: a :: f :: rest ->
+           join ((if asp 'H' then [h] else ["_"]) @ (if asp 'A' then [a; f] else ["_"; "_"]) @ (if asp 'K' then rest else []))
+         | _ -> l in
+       let ml = pick (canon_log (str_logdelta w.w_log w'.w_log)) in
+       let ol = pick (canon_log obs) in
+       if ml <> ol then set (Printf.sprintf "counters (hashes allocs frees dropped-keys dropped-values): model=[%s] impl=[%s]" ml ol));
     List.iter (fun (slot, obs) ->
         let ms = match slot_of w' slot with None -> "gone" | Some m -> str_dump m in
-        if ms <> obs then set (Printf.sprintf "contents of slot %s: model=[%s] impl=[%s]" (string_of_n slot) ms obs)) r.dumps;
+        if asp 'D' && ms <> obs then set (Printf.sprintf "contents of slot %s: model=[%s] impl=[%s]" (string_of_n slot) ms obs)) r.dumps;
     (Some (w', o), !diff)
 
 let run_record cfg w (r : record) : (world, string) result =
@@ -225,7 +234,10 @@ let run_record cfg w (r : record) : (world, string) result =
 
 let () =
   let files = ref [] in
-  Array.iteri (fun i a -> if i > 0 then (if a = "-v" then verbose := true else files := a :: !files)) Sys.argv;
+  Array.iteri (fun i a -> if i > 0 then (
+      if a = "-v" then verbose := true
+      else if String.length a > 10 && String.sub a 0 10 = "--aspects=" then aspects := String.sub a 10 (String.length a - 10)
+      else files := a :: !files)) Sys.argv;
   let cfg = ref { cR = n_of_int 8; cdebug = true; czst = false; cesz = n_of_int 16 } in
   let w = ref world0 in
   let hid = ref "" in
